@@ -1,13 +1,14 @@
 #!/bin/bash
-# altenv.sh: (re)create a scratch copy of /repo and /verif under /root/alt so that seeded changes can be
-# tested there while /verif is being edited. Remove /root/alt when done.
+# altenv.sh: (re)create a scratch copy of /repo and /verif under $ALT so that seeded changes can be
+# tested there while /verif is being edited. Remove $ALT when done.
 set -e
-mkdir -p /root/alt
-if [ ! -d /root/alt/repo/.git ]; then git clone -q /repo /root/alt/repo; fi
-git -C /root/alt/repo checkout -q -- . ; git -C /root/alt/repo clean -fdq ; git -C /root/alt/repo pull -q 2>/dev/null || true
-rsync -a --delete --exclude .cache --exclude .git --exclude replays --exclude evidence /verif/ /root/alt/verif/
-cd /root/alt/verif
-sed -i 's#/repo#/root/alt/repo#g' vcheck.sh mc/go.mod mc/cmd/mkoverlay/main.go tools/seedtest.sh
-sed -i 's#/verif/vcheck.sh#/root/alt/verif/vcheck.sh#; s#/tmp/seed_#/tmp/altseed_#g' tools/seedtest.sh
+ALT=${ALT:-/root/alt}
+mkdir -p $ALT
+if [ ! -d $ALT/repo/.git ]; then git clone -q /repo $ALT/repo; fi
+git -C $ALT/repo checkout -q -- . ; git -C $ALT/repo clean -fdq ; git -C $ALT/repo pull -q 2>/dev/null || true
+rsync -a --delete --exclude .cache --exclude .git --exclude replays --exclude evidence /verif/ $ALT/verif/
+cd $ALT/verif
+sed -i "s#/repo#$ALT/repo#g" vcheck.sh mc/go.mod mc/cmd/mkoverlay/main.go tools/seedtest.sh
+sed -i "s#/verif/vcheck.sh#$ALT/verif/vcheck.sh#; s#/tmp/seed_#/tmp/$(basename $ALT)seed_#g" tools/seedtest.sh
 mkdir -p replays evidence
-echo "alt environment ready: /root/alt/verif (repo $(git -C /root/alt/repo rev-parse --short HEAD))"
+echo "alt environment ready: $ALT/verif (repo $(git -C $ALT/repo rev-parse --short HEAD))"
